@@ -12,7 +12,8 @@
 static pev EV[1024]; static int NEV;
 static pev CV[1024]; static int NCV;          /* continuation alphabet (c09) */
 static struct { arb arb; } M;
-static int mode;                               /* 2, 3, 9 */
+static int mode;                               /* 2, 3, 9, 19 (allocation-ledger monitors on the protocol closure) */
+static struct { uint8_t first_seen; } M19;
 
 static void ev_name(int ev, char *buf, size_t cap) { pev_name(&EV[ev], buf, cap); }
 static void cv_name(int ev, char *buf, size_t cap) { pev_name(&CV[ev], buf, cap); }
@@ -25,6 +26,30 @@ static void apply(int ev) {
     if (mode == 2) { oracle_wellformed(0); oracle_solicited(e); }
     if (mode == 3) oracle_hello(e, 0, expect);
 }
+
+/* ------------------------------------------------------------------ c19 on the protocol closure */
+static uint32_t serial0, newblocks; static uint64_t newbytes;
+static void count_new(void *p, size_t size, uint32_t serial, void *arg) { (void)p; (void)arg; if (serial >= serial0) { newblocks++; newbytes += size; } }
+static void apply19(int ev) {
+    const pev *e = &EV[ev];
+    serial0 = vf_alloc_serial();
+    drv_linux(e, 0);
+    if (e->opcode == 0xF0 && e->tos == 0xEE) return;
+    newblocks = 0; newbytes = 0; vf_each_live(count_new, NULL);
+    /* what a handler may keep: the interface record (first frame), one observation node (Probe/Train), the icon (QueryLargeTlv) */
+    uint32_t allow = (M19.first_seen ? 0u : 1u) + ((e->opcode == 0x03 || e->opcode == 0x04) ? 1u : 0u) + ((e->opcode == 0x0B) ? 1u : 0u);
+    char nm[160]; pev_name(e, nm, sizeof nm);
+    if (newblocks > allow) {
+        char sig[96]; snprintf(sig, sizeof sig, "handler-retains-buffer:op=0x%02x", e->opcode);
+        vf_violation(sig, "%s: %u block(s) (%llu bytes) obtained while handling the frame are still allocated afterwards; at most %u can belong to the bounded retained state", nm, newblocks, (unsigned long long)newbytes, allow);
+    }
+    if (e->opcode == 0x08 && e->tos == 0 && vf_live_blocks() > 1)
+        vf_violation("reset-leaves-allocations", "%s: %u blocks (%llu bytes) remain allocated after a topology Reset; only the per-interface record may", nm, vf_live_blocks(), (unsigned long long)vf_live_bytes());
+    if (vf_live_bytes() > 65536 + W.host.icon_size)
+        vf_violation("retained-memory-exceeds-bound", "%llu bytes retained between frames (bound 64 KiB + icon)", (unsigned long long)vf_live_bytes());
+    M19.first_seen = 1;
+}
+static void root19(void) { M19.first_seen = 0; }
 
 /* ------------------------------------------------------------------ c09 */
 static const pev RESET0 = { .opcode = 8, .tos = 0, .realsrc = ST_M1, .ethsrc = ST_M1, .realdst = ST_BC, .ethdst = ST_BC, .own_pos = -1 };
@@ -61,9 +86,9 @@ static e3_cfg c3 = { .nworlds = 2, .ev_name = cv_name, .pre_name = ev_name, .tou
 
 int main(int argc, char **argv) {
     const char *prop = "C02";
-    for (int i = 1; i + 1 < argc; i++) if (!strcmp(argv[i], "--mode")) { if (!strcmp(argv[i + 1], "c03")) prop = "C03"; if (!strcmp(argv[i + 1], "c09")) prop = "C09"; }
+    for (int i = 1; i + 1 < argc; i++) if (!strcmp(argv[i], "--mode")) { if (!strcmp(argv[i + 1], "c03")) prop = "C03"; if (!strcmp(argv[i + 1], "c09")) prop = "C09"; if (!strcmp(argv[i + 1], "c19p")) prop = "C19"; }
     vf_parse_args(argc, argv, prop);
-    mode = !strcmp(A.mode, "c03") ? 3 : !strcmp(A.mode, "c09") ? 9 : 2;
+    mode = !strcmp(A.mode, "c03") ? 3 : !strcmp(A.mode, "c09") ? 9 : !strcmp(A.mode, "c19p") ? 19 : 2;
     vf_world_init(A.mtu, A.wifi, (uint8_t)A.fill);
     int small = (mode == 9 && A.a == 1);
     NEV = sigma_build(EV, 1024, mode == 3 ? SIGMA_DISC : small ? SIGMA_SMALL : SIGMA_P);
@@ -71,6 +96,7 @@ int main(int argc, char **argv) {
     c3.nev = NCV;
     e1_cfg cfg = { .nev = NEV, .ev_name = ev_name, .apply = apply, .root_setup = root_setup, .model = &M, .model_size = sizeof M,
                    .deadline_s = A.deadline };
+    if (mode == 19) { cfg.apply = apply19; cfg.root_setup = root19; cfg.model = &M19; cfg.model_size = sizeof M19; cfg.prune_on_violation = 1; }
     if (A.replay) {
         A.verbose = 1;
         if (mode == 9) return e3_replay_file(&c3, A.replay);
@@ -91,7 +117,7 @@ int main(int argc, char **argv) {
             vf_violation("output-depends-on-uninitialised-memory:graph", "state graph differs between fill patterns: %llu/%llu states, %llu/%llu transitions", (unsigned long long)states1, (unsigned long long)st2.states, (unsigned long long)st.transitions, (unsigned long long)st2.transitions);
         vf_extra("fill_patterns", "0x%02x and 0x%02x: %llu transitions compared byte-for-byte (via 64-bit hashes of each transition's port-call log)", A.fill, (uint8_t)~A.fill, (unsigned long long)n1);
         st.transitions += st2.transitions;
-    } else if (mode == 3) {
+    } else if (mode == 3 || mode == 19) {
         e1_run(&cfg, &st);
     } else {
         for (int ep = 0; ep < 2; ep++) { vf_world_reset(); W.env.icon_epoch = (uint32_t)ep; fresh_snap[ep] = vf_snapshot(NULL, 0); }
